@@ -26,6 +26,18 @@ void vf_fail(const char *d)
 void vf_rand_bytes(void *p, unsigned long n)
 {
     unsigned char *b = (unsigned char *)p;
+    if (vf_random_inputs && (n == 4 || n == 8)) {
+        /* scalars: one draw in four is a boundary pattern (zeros, signed zero, infinities, NaNs, denormal, limits) */
+        static const unsigned long long special[] = {0ULL, 1ULL, 0x80000000ULL, 0x7f800000ULL, 0xff800000ULL, 0x7fc00000ULL, 0xffc00000ULL, 0x00000001ULL, 0x7fffffffULL,
+            0xffffffffULL, 0x3f000000ULL, 0xbf000000ULL, 0x4b000000ULL, 0x5f000000ULL, 0x8000000000000000ULL, 0x7ff0000000000000ULL, 0xfff0000000000000ULL,
+            0x7ff8000000000000ULL, 0x7fffffffffffffffULL, 0xffffffffffffffffULL, 0x3fe0000000000000ULL, 0x4330000000000000ULL, 0x43e0000000000000ULL};
+        vf_rng ^= vf_rng << 13; vf_rng ^= vf_rng >> 7; vf_rng ^= vf_rng << 17;
+        if (((vf_rng >> 40) & 3) == 0) {
+            unsigned long long v = special[(vf_rng >> 20) % (sizeof special / sizeof special[0])];
+            memcpy(p, &v, n);
+            return;
+        }
+    }
     for (unsigned long i = 0; i < n; ++i) {
         if (!vf_random_inputs) { b[i] = 0; continue; }
         vf_rng ^= vf_rng << 13; vf_rng ^= vf_rng >> 7; vf_rng ^= vf_rng << 17;
